@@ -146,6 +146,8 @@ impl<K: Send, V: Send + Sync, H> CacheShared<K, V, H> {
 
     match loader {
       Loader::Sync(sync_loader) => {
+        #[cfg(excsn_fibre_verif)]
+        fibre::verif::expect_adoption();
         thread::spawn(move || {
           #[cfg(excsn_fibre_verif)]
           let _verif_adopted = fibre::verif::adopt();
